@@ -12,11 +12,12 @@
 3. every answer of the library is compared with the answer expected by the specification
    (query points on a boundary are excluded, as in the property).
 """
-import json, os, subprocess, time
+import fcntl, json, os, subprocess, time
 import vlib
 from vlib import Check, Broken, log
 
 PID = "C20"
+LIBDIR = [None]
 EXE = [None]      # path of the compiled harness (built once, in the main thread)
 JAVA_OPTS = "-Xss256m -Xmx6g -XX:+UseParallelGC"   # deep recursive functions on polygons with hundreds of vertices
 
@@ -123,10 +124,15 @@ def run_harness_shards(store):
     pending = list(range(len(store.paths)))
     crashes = []
     t0 = time.time()
-    for attempt in range(12):
+    reloads = 0
+    for attempt in range(16):
         if not pending:
             break
         procs = []
+        # shared lock on the build directory: a concurrent (incremental) re-link of the library by another
+        # check waits until the harness processes have loaded and finished, and vice versa
+        lockf = open(os.path.join(LIBDIR[0], ".lock"), "a")
+        fcntl.flock(lockf, fcntl.LOCK_SH)
         for i in pending:
             args = [exe, store.paths[i], outs[i]] + ([",".join(map(str, skips[i]))] if skips[i] else [])
             procs.append((i, subprocess.Popen(args, stdout=subprocess.DEVNULL, stderr=subprocess.PIPE, text=True)))
@@ -138,6 +144,11 @@ def run_harness_shards(store):
                 p.kill()
                 raise Broken("poly_run timed out on shard %d of %s" % (i, store.tag))
             if p.returncode == 0:
+                continue
+            if p.returncode == 127 and "shared librar" in err and reloads < 5:
+                reloads += 1           # the library was being re-linked: run the shard again
+                time.sleep(3)
+                nxt.append(i)
                 continue
             if p.returncode in (88, -11, -6, -8, -7, -4):
                 last = [l for l in open(outs[i]).read().splitlines() if l.strip()]
@@ -156,8 +167,10 @@ def run_harness_shards(store):
             else:
                 raise Broken("poly_run failed (shard %d, exit %s): %s" % (i, p.returncode, err[-1500:]))
         pending = nxt
+        fcntl.flock(lockf, fcntl.LOCK_UN)
+        lockf.close()
     if pending:
-        raise Broken("poly_run: more than 12 crashing cases in one shard")
+        raise Broken("poly_run: too many crashing cases in one shard")
     return outs, crashes, time.time() - t0
 
 
@@ -191,7 +204,7 @@ def compare(ck, store, outs, crashes):
                      "how": "write meta and case as two lines of a file and run .build/bin/poly_run <file> <out>"})
         seen_ids.add(cid)
 
-    def judge(cid, keep, codes, entries, what, var=None):
+    def judge(cid, keep, codes, entries, what, var=None, other_cause="none"):
         nonlocal ndis, ncmp, nruns
         want = "".join(WANT[c] for c in codes)
         nfree = len(want) - want.count(".")
@@ -206,7 +219,7 @@ def compare(ck, store, outs, crashes):
             bad_known = [i for i in range(len(s)) if s[i] != want[i] and codes[i] == "3" and s[i] == "0"]
             bad_other = [i for i in range(len(s)) if s[i] != want[i] and not (codes[i] == "3" and s[i] == "0")]
             case = None
-            for bad, cause in ((bad_known, "z-limits-early-return"), (bad_other, "none")):
+            for bad, cause in ((bad_known, "z-limits-early-return"), (bad_other, other_cause)):
                 if not bad:
                     continue
                 i = bad[0]
@@ -236,6 +249,10 @@ def compare(ck, store, outs, crashes):
                 judge(cid, keep, keep["exp"], r["obs"], "inside")
                 if "obssel" in r:
                     judge(cid, keep, keep["sel"], r["obssel"], "db_polygon(flag_sel)")
+                if "obstiny" in r:
+                    # open vertex list whose extent is below the absolute closure tolerance (1e-5) of PolyElem
+                    judge(cid, keep, keep["exp"], r["obstiny"], "inside(open input, extent < 1e-5)",
+                          other_cause="open-input-below-closure-tolerance")
             else:
                 v = keep["var"][r["var"]]
                 judge(cid, keep, v["a"], r["obs"], "inside", {"z": v["z"], "nested": v["nested"]})
@@ -383,7 +400,7 @@ def run_all(ck, specs):
 
 def run(tier):
     ck = Check(PID, "model_checking", tier)
-    vlib.build_lib()
+    LIBDIR[0] = vlib.build_lib()
     EXE[0] = vlib.build_harness("poly_run")
     quick = tier == "quick"
     kinds2 = '"sub", "stair"'
@@ -398,7 +415,9 @@ def run(tier):
             ("MC_PolygonSet", SET_CFG % dict(G=3, pool="rect", poolmaxv=4, maxelems=2, minemit=1),
              "sets_3x3_rect_le2", "lite", {}),
             ("MC_PolygonBig", BIG_CFG % dict(G=3, maxv=3, kinds=kinds2, ks="3", inv="Inv_Big Inv_SubSimple"),
-             "refined_3x3_tri_k3", "lite", {})]
+             "refined_3x3_tri_k3", "lite", {}),
+            ("MC_PolygonSet", SET_CFG % dict(G=3, pool="rect", poolmaxv=4, maxelems=3, minemit=3),
+             "sets_3x3_rect_3_simulated", "one", dict(simulate=400, depth=4, nworkers=1))]
     else:
         specs = [
             ("MC_Polygon", POLY_CFG % dict(G=4, maxv=6, minemit=6, emitsel="FALSE", canon="TRUE", inv="Inv_Agree Inv_Closed"),
@@ -427,7 +446,7 @@ def run(tier):
                  "set_points_union_2d_inside", "set_points_nested_2d_inside", "set_points_union_3d_inside",
                  "set_points_nested_3d_inside", "set_points_union_3d_inside_early_return_applies",
                  "set_points_nested_3d_inside_early_return_applies", "set_points_nested_2d_outside"] +
-            ([] if quick else ["sets_3_elements"]))
+            ["sets_3_elements"])
     ck.cov["distinct_nontrivial"] = ck.cov["categories"]["polygons"] + sum(
         v for k, v in ck.cov["categories"].items() if k.startswith("sets_"))
     ck.cov["rule"] = ("every case emitted by TLC (simple lattice polygon / refined polygon / polygon set with vertical limits, "
